@@ -63,8 +63,9 @@ type Scenario struct {
 	Procs     []ProcSpec `json:"procs"`
 	Ordered   bool       `json:"ordered,omitempty"`
 	Calls     []Call     `json:"calls"`
-	Choices   []string   `json:"choices,omitempty"`    // recorded schedule (replay)
-	Polite    bool       `json:"polite,omitempty"`     // scheduling that stays out of the known check-then-act windows
+	Choices   []string   `json:"choices,omitempty"` // recorded schedule (replay)
+	Polite    bool       `json:"polite,omitempty"`  // scheduling that stays out of the known check-then-act windows
+	Note2     string     `json:"note2,omitempty"`
 	HoldExit  string     `json:"hold_exit,omitempty"`  // this process's signalled command does not exit before a shutdown is in progress (slow to die)
 	WaitUp    bool       `json:"wait_up,omitempty"`    // the first API call after run is only issued when no thread of the supervisor can move (the project is up)
 	ParkState bool       `json:"park_state,omitempty"` // also park at the status-write trace point (inside the state mutex)
@@ -73,17 +74,18 @@ type Scenario struct {
 }
 
 type Result struct {
-	Scenario   Scenario       `json:"scenario"`
-	Events     []sched.Event  `json:"events"`
-	Choices    []string       `json:"choices"`
-	Truncated  bool           `json:"truncated,omitempty"`
-	Warnings   []string       `json:"warnings,omitempty"`
-	BlockedI   []int          `json:"blocked_insts"`
-	BlockedT   []int          `json:"blocked_threads"`
-	NameOf     map[int]string `json:"inst_names"`
-	Crashed    string         `json:"crashed,omitempty"`
-	Quiescent  bool           `json:"quiescent,omitempty"` // the scheduler found nothing enabled any more
-	AliveAtEnd []string       `json:"alive_at_end,omitempty"`
+	Scenario     Scenario       `json:"scenario"`
+	Events       []sched.Event  `json:"events"`
+	Choices      []string       `json:"choices"`
+	Truncated    bool           `json:"truncated,omitempty"`
+	Warnings     []string       `json:"warnings,omitempty"`
+	EarlyBackoff []int          `json:"early_backoff,omitempty"` // back-off waits that ended "elapsed" while their timer was held (1 h)
+	BlockedI     []int          `json:"blocked_insts"`
+	BlockedT     []int          `json:"blocked_threads"`
+	NameOf       map[int]string `json:"inst_names"`
+	Crashed      string         `json:"crashed,omitempty"`
+	Quiescent    bool           `json:"quiescent,omitempty"` // the scheduler found nothing enabled any more
+	AliveAtEnd   []string       `json:"alive_at_end,omitempty"`
 }
 
 // ------------------------------------------------------------------------------------------ project
@@ -214,6 +216,9 @@ func (r *runState) enabled() []action {
 		}
 		if canExit && r.sc.HoldExit == c.Name && r.sigged[c] && !r.s.SnapshotTaken() {
 			canExit = false // still dying when the shutdown starts
+		}
+		if canExit && r.sc.Kind == "stopstart" && r.sigged[c] && r.nextCall <= 2 {
+			canExit = false // still dying when the start / restart request arrives
 		}
 		if canExit {
 			acts = append(acts, action{key: fmt.Sprintf("exit:%d", inst), w: 4, do: func() {
@@ -487,6 +492,7 @@ func runScenario(sc *Scenario, maxSteps int) *Result {
 	}
 	res.Choices = r.choices
 	res.Warnings = append(res.Warnings, s.Warnings...)
+	res.EarlyBackoff = append(res.EarlyBackoff, s.EarlyBackoff...)
 	res.NameOf = map[int]string{}
 	for i, n := range s.InstName {
 		res.NameOf[i] = n
@@ -593,6 +599,18 @@ func genScenario(rng *rand.Rand, id int, kind string) *Scenario {
 			}
 		}
 	}
+	if kind == "stopstart" {
+		for i := range sc.Procs {
+			ps := &sc.Procs[i]
+			ps.Deps, ps.BadDir, ps.StartFail, ps.Disabled, ps.ExitOnSkipped, ps.ExitOnEnd = nil, false, false, false, false, false
+			ps.ReadyProbe, ps.ReadyLine, ps.Probes, ps.Lines = false, false, nil, nil
+			ps.Forever = true
+			ps.OnSignal = "later"
+			if ps.Policy == "exit_on_failure" {
+				ps.Policy = "no"
+			}
+		}
+	}
 	sc.Ordered = rng.Intn(3) == 0
 	if kind == "ordered" {
 		// ordered shutdown over a dependency graph in which everything is up and many commands are slow to die:
@@ -646,12 +664,46 @@ func genScenario(rng *rand.Rand, id int, kind string) *Scenario {
 			}
 			ps.Codes = []int{0}
 		}
+		// a process that is SKIPPED (p1, whose dependency failed) must release every kind of waiter: the last process
+		// waits for it under a random condition; with completed/started it runs, with the others it is skipped too
+		if n := len(sc.Procs); n >= 3 && rng.Intn(2) == 0 {
+			last := &sc.Procs[n-1]
+			cond := conds[rng.Intn(len(conds))]
+			last.Deps = []DepSpec{{Name: "p1", Cond: cond}}
+			if cond == "healthy" {
+				sc.Procs[1].ReadyProbe = true
+			}
+			if cond == "log_ready" {
+				sc.Procs[1].ReadyLine = true
+			}
+		}
+		// the leaf is only started later through the API, when the chain above it has already been skipped: its
+		// lookups find the skipped dependency in the done registry
+		if n := len(sc.Procs); n >= 3 && rng.Intn(3) == 0 {
+			sc.Procs[n-1].Disabled = true
+			sc.WaitUp = true
+			sc.Note2 = "late-start"
+		}
 	}
 	sc.Calls = []Call{{Op: "run"}}
 	nm := func() string { return sc.Procs[rng.Intn(len(sc.Procs))].Name }
 	switch kind {
+	case "stopstart":
+		// a running process that is slow to die is asked to stop, and a start / restart of it arrives before its
+		// command has exited
+		k := rng.Intn(len(sc.Procs))
+		sc.WaitUp = true
+		sc.Calls = append(sc.Calls, Call{Op: "stop", Name: sc.Procs[k].Name})
+		sc.Calls = append(sc.Calls, Call{Op: []string{"start", "start", "restart"}[rng.Intn(3)], Name: sc.Procs[k].Name})
+		if rng.Intn(2) == 0 {
+			sc.Calls = append(sc.Calls, Call{Op: "stop", Name: sc.Procs[k].Name})
+		}
+		sc.Calls = append(sc.Calls, Call{Op: "shutdown"})
 	case "skipchain":
-		// nothing lives for ever: Run() returns by itself
+		// nothing lives for ever: Run() returns by itself (a disabled leaf is started when everything has settled)
+		if sc.Note2 == "late-start" {
+			sc.Calls = append(sc.Calls, Call{Op: "start", Name: sc.Procs[len(sc.Procs)-1].Name})
+		}
 	case "ordered":
 		if rng.Intn(3) > 0 {
 			// the process asked to stop just before the shutdown is a dependent and slow to die
